@@ -57,7 +57,19 @@ fn eval_point<F: Function + MathFunction>(c: &Case) -> Result<f32, u64> {
     match r { Ok((v, _)) => Ok(v), Err(fidget_core::shape::ShapeTracingEvalError::MissingVar(m)) => Err(var_id(Var::V(m.var), &c.dag.vs)) }
 }
 
+/// A point at which a min / max of zeros of opposite sign feeds the result: the evaluator kinds (and a simplified tape) may return
+/// different zeros there (C02), and atan2 / a division downstream make different values of them; no single value to agree on.
+fn zero_open(c: &Case) -> bool {
+    let t = match &c.mat { Some(m) => <f32 as Transformable>::transform(c.p[0], c.p[1], c.p[2], m), None => (c.p[0], c.p[1], c.p[2]) };
+    let mut orc = Oracle::default();
+    let env = |v: Var| -> f32 { match v { Var::X => t.0, Var::Y => t.1, Var::Z => t.2,
+        _ => { let k = c.dag.vs.iter().position(|x| *x == v).unwrap(); c.supplied.iter().find(|(kk, _)| *kk == k).map(|(_, v)| *v).unwrap_or(f32::NAN) } } };
+    let vals = eval_arena(&c.dag.ctx, &env, &mut orc);
+    zero_tie_taint(&c.dag.ctx, &vals)[c.root.verif_index()]
+}
+
 fn other_kinds<F: Function + MathFunction>(c: &Case, want: f32, backend: &str, bad: &mut Vec<String>) {
+    if zero_open(c) { return; }
     let shape = Shape::<F>::new(&c.dag.ctx, c.root).unwrap();
     let sv = shape_vars(c);
     // the sign of a zero result of min / max is code-generation dependent (known, see C02)
@@ -154,6 +166,7 @@ fn other_kinds<F: Function + MathFunction>(c: &Case, want: f32, backend: &str, b
 
 /// Simplify on a box around the point and re-evaluate: same value, same binding
 fn simplified<F: Function + MathFunction>(c: &Case, want: f32, backend: &str, bad: &mut Vec<String>) -> bool {
+    if zero_open(c) { return false; }
     let shape = Shape::<F>::new(&c.dag.ctx, c.root).unwrap();
     let sv = shape_vars(c);
     let tape = shape.interval_tape(Default::default());
